@@ -410,7 +410,7 @@ def kflag_module():
 
 def build(tier, seed):
     quick = tier == "quick"
-    tmo = 90 if quick else 900
+    tmo = 90 if quick else 300
     m = Module("c18_enum").pre(SETUP).pre(ENUM_PART)
     m.ob("enum_creation", "x: int", "return not EERR", timeout=30, family="enum providers: creation",
          bounds="8 enum classes x exact/default/by-name/name_style/map/by-value x strict/lax")
